@@ -197,7 +197,8 @@ class Agg:
                 if len(self.violations) < 8:
                     self.violations.append({"index": index, "sig": v["sig"],
                                             "detail": v.get("detail", ""),
-                                            "plan": res.get("plan"), "digest": res.get("digest")})
+                                            "plan": res.get("plan"), "digest": res.get("digest"),
+                                            "explicit_schedule": res.get("explicit_schedule")})
         return unlisted
 
     def merge(self, o: "Agg") -> None:
@@ -490,7 +491,13 @@ def main(argv: list[str]) -> int:
         vio = min(agg.violations, key=lambda v: v["index"])
         print(f"violation candidate at run {vio['index']}: {vio['sig']} :: {vio['detail'][:600]}")
         sys.stdout.flush()
-        minimal = minimise(mod, vio["plan"], vio["sig"],
+        plan0 = vio["plan"]
+        if vio.get("explicit_schedule") and isinstance(plan0.get("schedule"), dict):
+            cand = {**plan0, "schedule": vio["explicit_schedule"]}
+            ok0, _ = _reproduces(mod, cand, vio["sig"])
+            if ok0:
+                plan0 = cand
+        minimal = minimise(mod, plan0, vio["sig"],
                            budget_s=float(os.environ.get("VERIF_MINIMISE_S") or 40))
         ok, res = _reproduces(mod, minimal, vio["sig"])
         if not ok:
